@@ -390,6 +390,17 @@ DownloadMain::do_peer_exchange() {
       current.push_back(SocketAddressCompact(reinterpret_cast<const sockaddr_in*>(sa)->sin_addr.s_addr, htons(pcb->peer_info()->listen_port())));
     }
 
+    // Still using the old buffer? Make a copy in this rare case. This must also be done for
+    // connections whose PEX is off or is being switched off below: the shared buffers are
+    // cleared for everyone at the end of this function.
+    DataBuffer* message = pcb->extension_message();
+
+    if (!message->empty() && (message->data() == m_ut_pex_initial.data() || message->data() == m_ut_pex_delta.data())) {
+      auto buffer = new char[message->length()];
+      memcpy(buffer, message->data(), message->length());
+      message->set(buffer, buffer + message->length(), true);
+    }
+
     if (!pcb->extensions()->is_remote_supported(ProtocolExtension::UT_PEX))
       continue;
 
@@ -406,15 +417,6 @@ DownloadMain::do_peer_exchange() {
       pcb->set_peer_exchange(false);
 
       continue;
-    }
-
-    // Still using the old buffer? Make a copy in this rare case.
-    DataBuffer* message = pcb->extension_message();
-
-    if (!message->empty() && (message->data() == m_ut_pex_initial.data() || message->data() == m_ut_pex_delta.data())) {
-      auto buffer = new char[message->length()];
-      memcpy(buffer, message->data(), message->length());
-      message->set(buffer, buffer + message->length(), true);
     }
 
     pcb->do_peer_exchange();
